@@ -189,7 +189,7 @@ def run(ctx) -> Result:
     # Redis broker: sessions on the real RedisMessageBroker/_RedisConsumer (in-process fake server) vs the Lean model
     # Redis.R, and this property's clauses on what the implementation did
     import redisrun
-    res.merge(redisrun.part(ctx, "C05", ['mixed', 'ttl', 'mixed'], crash=0, race=0))
+    res.merge(redisrun.part(ctx, "C05", ['mixed', 'ttl', 'mixed', 'poll'], crash=0, race=0))
     res.assumptions = list(getattr(res, "assumptions", []) or []) + redisrun.ASSUMPTIONS
     # RabbitMQ broker: sessions on the real RabbitMessageBroker/_RabbitConsumer (in-process fake AMQP server) vs Rabbit.S
     import rabbitrun
